@@ -198,6 +198,18 @@ def run(chk):
             return None if all(close(x, y, rtol=1e-7, atol=1e-8) for x, y in zip(a, b)) else "projection"
         explore("Whitening", nw, Dw, lambda: (np.asarray(Whitening().fit(Xw).weights), np.asarray(Whitening().fit(Xw).input_subtract)),
                 lambda ch: (lambda wh: (np.asarray(wh.weights), np.asarray(wh.input_subtract)))(Whitening().fit(da.from_array(Xw, chunks=(ch[0], (Dw,))))), w_cmp)
+        # the same on features with a common offset 1e5 times their spread (a time stamp, a temperature in Kelvin): both routes centre before
+        # they square, so they agree far below the 1e-5 that a one-pass sum of squares loses at this offset
+        Xo = Xw + 1e5 * float(np.std(Xw))
+        for rows_o in (tuple([1] * nw), tuple(gen.random_composition(r, nw, 3))):
+            wn_, wd_ = Whitening().fit(Xo), Whitening().fit(da.from_array(Xo, chunks=(rows_o, (Dw,))))
+            cn_, cd_ = WCCN().fit(Xo, yw), WCCN().fit(da.from_array(Xo, chunks=(rows_o, (Dw,))), yw)
+            chk.count(1, key=("Whitening/WCCN, large common offset", len(rows_o)))
+            for nm_, a_, b_ in (("Whitening", wn_.weights, wd_.weights), ("WCCN", cn_.weights, cd_.weights)):
+                if not close(np.asarray(a_), np.asarray(b_), rtol=1e-7, atol=1e-8):
+                    chk.fail("%s on a Dask array (row blocks %s) differs from the in-memory result for features with a common offset 1e5 times their spread (largest relative difference %.3g)"
+                             % (nm_, rows_o, float(np.abs(np.asarray(a_) - np.asarray(b_)).max() / np.abs(np.asarray(a_)).max())),
+                             {"X": hexlist(Xo), "y": [int(q) for q in yw], "row_chunks": list(rows_o), "trainer": nm_})
         explore("WCCN", nw, Dw, lambda: (np.asarray(WCCN().fit(Xw, yw).weights),),
                 lambda ch: (np.asarray(WCCN().fit(da.from_array(Xw, chunks=(ch[0], (Dw,))), yw).weights),), w_cmp)
         if rd < 2:
